@@ -656,6 +656,11 @@ def gen_carrier(rng):
             ops.append(["vol", rng.choice([1, 2, 3]), [new_value(rng, 10.0)]])
         else:
             ops.append(["newcell", 10 + len(ops), [new_value(rng, 2.0), new_value(rng, 1.0), new_value(rng, 10.0)]])
+    # identifiers: integers are written exactly, on the card and wherever the object is pointed at
+    if rng.random() < 0.4:
+        for kind in rng.sample(["renum_surf", "renum_mat", "renum_tr", "renum_cell"], rng.randint(1, 2)):
+            new = rng.choice([rng.randint(20, 99), rng.randint(100, 99999), rng.randint(10 ** 5, 99999999)])
+            ops.append([kind, {"renum_surf": 5, "renum_mat": 2, "renum_tr": 1, "renum_cell": 2}[kind], [new]])
     return {"text": text, "layout": layout, "slots": slots, "ops": ops, "ntr": ntr, "jump_vol": jump_vol}
 
 
@@ -750,6 +755,25 @@ def run_carrier(car):
                 exp[("dens", op[1], 0)] = ("set", -op[2][0])
                 exp[("imp", op[1], 0)] = ("set", op[2][1])
                 exp[("vol", op[1], 0)] = ("set", op[2][2])
+            elif k in ("renum_surf", "renum_mat", "renum_tr", "renum_cell"):
+                old, new = op[1], op[2][0]
+                kinds = {"renum_surf": ("surf",), "renum_mat": ("frac",), "renum_tr": ("tr",),
+                         "renum_cell": ("dens", "imp", "vol")}[k]
+                if k == "renum_surf":
+                    pr.surfaces[old].number = new
+                elif k == "renum_mat":
+                    pr.materials[old].number = new
+                    for c in pr.cells:
+                        if c.material is not None and c.material.number == new:
+                            exp[("mat", c.number, 0)] = ("int", new)
+                elif k == "renum_tr":
+                    trs[old].number = new
+                    exp[("trptr", 7, 0)] = ("int", new)
+                else:
+                    pr.cells[old].number = new
+                for key in [key for key in exp if key[0] in kinds and key[1] == old]:
+                    exp[(key[0], new, key[2])] = exp.pop(key)
+                exp[("num", kinds[0], new)] = ("int", new)
         out = mp.write_problem(pr, name="c05_out.i")
     return out, exp
 
@@ -764,6 +788,8 @@ def read_carrier(out):
         toks = spec.tokens(card.text)
         num = int(toks[0])
         order.append(num)
+        got[("num", "dens", num)] = toks[0]
+        got[("mat", num, 0)] = toks[1]
         if toks[1] != "0":
             got[("dens", num, 0)] = toks[2]
         c = spec.parse_cell(card)
@@ -776,7 +802,9 @@ def read_carrier(out):
         toks = spec.tokens(card.text)
         num = int(toks[0].lstrip("*+"))
         i = 1
+        got[("num", "surf", num)] = toks[0].lstrip("*+")
         if re.fullmatch(r"[+-]?\d+", toks[1]):
+            got[("trptr", num, 0)] = toks[1]
             i = 2
         for j, t in enumerate(toks[i + 1:]):
             got[("surf", num, j)] = t
@@ -785,11 +813,13 @@ def read_carrier(out):
         head = toks[0]
         m = re.fullmatch(r"M(\d+)", head)
         if m:
+            got[("num", "frac", int(m.group(1)))] = m.group(1)
             for j in range((len(toks) - 1) // 2):
                 got[("frac", int(m.group(1)), j)] = toks[2 + 2 * j]
             continue
         m = re.fullmatch(r"\*?TR(\d+)", head)
         if m:
+            got[("num", "tr", int(m.group(1)))] = m.group(1)
             for j, t in enumerate(toks[1:]):
                 got[("tr", int(m.group(1)), j)] = t
             continue
@@ -824,9 +854,16 @@ def check_carrier(car):
         if how == "kept":
             if want == "J":
                 continue                            # a jump that stays a jump: C07's business
+            if isinstance(g, Fraction):
+                if g != spec.read_number(want.upper()):
+                    return {"kind": "carrier-kept-respelled", "slot": list(key), "want": want, "got": str(g), "out": out}
+                continue
             if g is None or str(g).upper() != want.upper():
                 # a kept token may have been moved by a longer neighbour but must be spelled the same
                 return {"kind": "carrier-kept-respelled", "slot": list(key), "want": want, "got": str(g), "out": out}
+        elif how == "int":
+            if g is None or not re.fullmatch(r"[+-]?\d+", str(g)) or int(str(g)) != want:
+                return {"kind": "carrier-int-not-exact", "slot": list(key), "want": want, "got": str(g), "out": out}
         else:
             if g is None:
                 return {"kind": "carrier-missing", "slot": list(key), "want": repr(want), "out": out}
